@@ -73,6 +73,15 @@ Sem(e) ==
 (***************************************************************************)
 (* Produce: a call that returns a diagram into slot e.res.                 *)
 (***************************************************************************)
+(* C10 (purity): when the recorder repeated the call on a fresh copy of the pool in a fresh builder, *)
+(* every answer field must coincide with the long-lived builder's (shape = the diagram unfolded)    *)
+FreshAgrees(e) ==
+  IF "fresh" \in DOMAIN e
+  THEN /\ "f_panic" \notin DOMAIN e
+       /\ \A k \in {"val", "model", "limbs", "nlimbs", "climbs", "shape"} :
+             IF k \in DOMAIN e THEN ("f_" \o k) \in DOMAIN e /\ e["f_" \o k] = e[k] ELSE TRUE
+  ELSE TRUE
+
 Produce(e) ==
   LET nn   == e.nodes
       nd2  == node \o nn
@@ -111,8 +120,9 @@ Produce(e) ==
        THEN Req(TwinProp, /\ e.tev = e.ev /\ e.ta = e.a /\ "troot" \in DOMAIN e
                        /\ e.troot = e.root /\ e.tnodes = e.nodes)
        ELSE TRUE
-  \* C10: no scratch left behind
+  \* C10: no scratch left behind, and the same call on a freshly built copy gives the same diagram
   /\ Req("C10", e.dirty = << >>)
+  /\ Req("C10", FreshAgrees(e))
   /\ node' = nd2
   /\ nvars' = nv2 /\ ord' = ord2
   /\ root' = [root EXCEPT ![e.res] = e.root]
@@ -194,6 +204,7 @@ QueryOK(e) ==
 
 Query(e) ==
   /\ QueryOK(e)
+  /\ Req("C10", FreshAgrees(e))
   /\ IF "tev" \in DOMAIN e
        THEN Req(TwinProp, /\ e.tev = e.ev /\ e.ta = e.a
                        /\ (IF "val" \in DOMAIN e THEN "tval" \in DOMAIN e /\ e.tval = e.val ELSE TRUE)
